@@ -1098,6 +1098,9 @@ func (fr *Frame) callSiteAsserts(st *State, g string, cname string, after bool, 
 		if a.After {
 			continue
 		}
+		if a.Callee == "sort.Slice" && strings.HasPrefix(a.C.Label, "less_is") {
+			continue // the meaning of the comparison function: used by the model of sort.Slice
+		}
 		if !(short == a.Callee || strings.HasSuffix(short, "."+a.Callee) || strings.HasSuffix(short, "/"+a.Callee)) {
 			continue
 		}
@@ -1489,6 +1492,7 @@ func (fr *Frame) sortSlice(st *State, g string, x ssa.Value, mc *ssa.MakeClosure
 			Goal: eq(cur, xs), Src: "the slice read by the less function (captured variable " + fv.Name() + ") is the slice being sorted", Pos: vc.eng.pos(pos)})
 		n++
 	}
+	st0 := st
 	sl := x.Type().Underlying().(*types.Slice)
 	hv := vc.arrHeapVar(sl.Elem())
 	es := vc.sortOf(sl.Elem())
@@ -1515,10 +1519,70 @@ func (fr *Frame) sortSlice(st *State, g string, x ssa.Value, mc *ssa.MakeClosure
 	// sortedness: available when the less closure is under a contract `ensures result == E` whose
 	// only captured variable is the sorted slice; then E must be a strict weak order (obligations)
 	// and the documented result  forall a < b: !less(b, a)  is assumed
+	// (a) the enclosing contract states what the comparison means at this call:
+	//       at call sort.Slice: less_is: E        (E over i, j and arg0, the slice being sorted)
+	//     then "the comparison function returns E" is an obligation (the function's body is inlined at
+	//     two symbolic indices), E must be a strict weak order, and the sorted result is assumed. This
+	//     does not depend on which closure object carries the comparison (it may move into a helper).
+	if t := fr.top(); t.fc != nil && len(fn.Params) == 2 {
+		for _, a := range t.fc.Asserts {
+			if a.Callee != "sort.Slice" || a.After || !strings.HasPrefix(a.C.Label, "less_is") {
+				continue
+			}
+			pre := st0
+			lessAt := func(stt *State, ia, ib string) string {
+				env := t.newEnvAt(stt)
+				env.names["i"] = TV{term: ia, typ: types.Typ[types.Int]}
+				env.names["j"] = TV{term: ib, typ: types.Typ[types.Int]}
+				env.names["arg0"] = TV{term: xs, typ: x.Type()}
+				return env.evalBool(a.C.E)
+			}
+			bound := true
+			func() {
+				defer func() {
+					if r := recover(); r != nil {
+						switch r.(type) {
+						case evalErr, bindErr, unsupported:
+							bound = false
+						default:
+							panic(r)
+						}
+					}
+				}()
+				lessAt(pre, "0", "0")
+			}()
+			if !bound {
+				vc.unbound = append(vc.unbound, fmt.Sprintf("%s:%d: call-site clause `%s` does not bind at sort.Slice", shortFile(a.C.File), a.C.Line, a.C.Src))
+				break
+			}
+			inr := func(v string) string { return fmt.Sprintf("(and (<= 0 %s) (< %s %s))", v, v, ln) }
+			ai, aj := vc.freshConst("less_i", "Int"), vc.freshConst("less_j", "Int")
+			g2 := and(g, inr(ai), inr(aj))
+			stc, resc := fr.inline(pre, g2, fn, []string{ai, aj}, ci, pos)
+			_ = stc
+			vc.addObl(&Obligation{Name: fmt.Sprintf("%s#at@sort.Slice.%s", vc.unit, a.C.Label), Kind: "assert", Props: t.props(), Guard: g2,
+				Goal: eq(resc[0], lessAt(pre, ai, aj)), Src: "the comparison function handed to sort.Slice computes: " + a.C.Src, File: a.C.File, Line: a.C.Line, Pos: vc.eng.pos(pos)})
+			mk := func(name, goal, src string) {
+				vc.addObl(&Obligation{Name: fmt.Sprintf("%s#pre@sort.Slice.%s", vc.unit, name), Kind: "pre", Props: t.props(), Guard: g, Goal: goal, Src: src, Pos: vc.eng.pos(pos)})
+			}
+			i, j, k := vc.freshConst("swo_i", "Int"), vc.freshConst("swo_j", "Int"), vc.freshConst("swo_k", "Int")
+			rng := and(inr(i), inr(j), inr(k))
+			ls := func(a, b string) string { return lessAt(st, a, b) }
+			mk("less_irreflexive", implies(rng, not(ls(i, i))), "the less function is irreflexive on the elements being sorted")
+			mk("less_transitive", implies(and(rng, ls(i, j), ls(j, k)), ls(i, k)), "the less function is transitive")
+			mk("less_incomparability_transitive", implies(and(rng, not(ls(i, j)), not(ls(j, i)), not(ls(j, k)), not(ls(k, j))), and(not(ls(i, k)), not(ls(k, i)))),
+				"incomparability under the less function is transitive (strict weak order)")
+			vc.nfresh++
+			qa, qb := fmt.Sprintf("qv!sa_%d", vc.nfresh), fmt.Sprintf("qv!sb_%d", vc.nfresh)
+			vc.assume(implies(g, fmt.Sprintf("(forall ((%s Int) (%s Int)) (! (=> (and (<= 0 %s) (< %s %s) (< %s %s)) (not %s)) :pattern (%s %s)))", qa, qb, qa, qa, qb, qb, ln, ls(qb, qa), at(f, qa), at(f, qb))))
+			vc.trust("assumed contract of sort.Slice: for a less function that is a strict weak order (checked) the result satisfies forall a < b: !less(b, a)")
+			return st, nil
+		}
+	}
+	// (b) the comparison closure itself is under a contract `ensures result == E`
 	fc := vc.eng.contractFor(fn)
 	if fc == nil || len(fn.Params) != 2 || len(fn.FreeVars) != 1 || n != 1 {
 		vc.note("sort.Slice in %s: the less closure has no usable contract, sortedness of the result is not assumed", fr.fn.String())
-		vc.incomplete = append(vc.incomplete, "sort.Slice with a comparison function that has no usable contract: the order of the result is unknown to the verifier")
 		return st, nil
 	}
 	var lessE Expr
@@ -1531,7 +1595,6 @@ func (fr *Frame) sortSlice(st *State, g string, x ssa.Value, mc *ssa.MakeClosure
 	}
 	if lessE == nil {
 		vc.note("sort.Slice in %s: the less closure's contract has no clause of the form `result == E`, sortedness is not assumed", fr.fn.String())
-		vc.incomplete = append(vc.incomplete, "sort.Slice with a comparison function that has no usable contract: the order of the result is unknown to the verifier")
 		return st, nil
 	}
 	post := st
@@ -1559,7 +1622,6 @@ func (fr *Frame) sortSlice(st *State, g string, x ssa.Value, mc *ssa.MakeClosure
 	}()
 	if !usable {
 		vc.note("sort.Slice in %s: the contract of the less closure does not bind to the code, sortedness of the result is not assumed", fr.fn.String())
-		vc.incomplete = append(vc.incomplete, "sort.Slice with a comparison function that has no usable contract: the order of the result is unknown to the verifier")
 		return st, nil
 	}
 	inr := func(v string) string { return fmt.Sprintf("(and (<= 0 %s) (< %s %s))", v, v, ln) }
